@@ -64,6 +64,9 @@ func c15Run(c *core.Ctx, long bool) {
 		warmRain, warmPet = rainSeries(c.R, wT), petSeries(c.R, wT)
 	}
 	c.Begin(map[string]interface{}{"model": "GR4J", "run": run, "warmup_rain": warmRain, "warmup_pet": warmPet})
+	if c.R.Bool(0.15) {
+		HostileHistory(c, "GR4J", run.Sets)
+	}
 	n1, n2 := int(math.Ceil(x4)), int(math.Ceil(2*x4))
 	isInt := x4 == math.Floor(x4)
 	c.Class(fmt.Sprintf("n1=%d/n2=%d/int%v/hot%v/x2sign%d", n1, n2, isInt, hot, sign(x2)))
